@@ -36,13 +36,15 @@ class _LoadAndSave:
     customize the behavior if needed (for instance, to introduce additional locks).
     """
 
-    def __init__(self, collection):
+    def __init__(self, collection, load=True):
         self._collection = collection
+        self._load = load
 
     def __enter__(self):
         self._collection._thread_lock.__enter__()
         try:
-            self._collection._load()
+            if self._load:
+                self._collection._load()
         except BaseException as error:
             # __exit__ is not called when __enter__ raises, so the lock must
             # be released here.
@@ -286,6 +288,20 @@ class SyncedCollection(Collection):
         """
         cls._thread_lock = _NullContext()
         cls._threading_support_is_active = False
+
+    def _overwrite_context(self):
+        """Get the context in which operations replacing all data must run.
+
+        Operations like ``clear`` or ``reset`` discard the current contents of
+        a collection. For a nested collection, the rest of the data in the root
+        must still be synchronized, so the normal load-and-save context is used.
+        For a root collection, loading is unnecessary (and would prevent
+        overwriting a corrupted resource), so the same context is used without
+        the initial load.
+        """
+        if self._root is None:
+            return self._LoadSaveType(self, load=False)
+        return self._load_and_save
 
     @property
     def _lock_id(self):
